@@ -802,6 +802,10 @@ def h2_scenarios(tier):
     # the faulty stream on a scripted h2c backend (harness/src/h2bb.rs h2c_fault_backend): faults before any
     # response byte, and after HEADERS 200 (content-length 3000) + 1000 bytes of DATA
     s += [("h2c_" + f, 0) for f in ("rst_first", "refused", "goaway_first", "close_first", "rst_mid", "close_mid", "stall_mid", "goaway_mid")]
+    # two streams answered by the proxy itself at different moments while a third waits for a slow healthy
+    # backend (every order), and a client-side RST_STREAM(CANCEL) in the middle of a response followed by a
+    # new stream to the same cluster (the half-read backend connection must not be reused)
+    s += [("drain_a", 0), ("drain_b", 0), ("drain_c", 0), ("cancel_reuse", 0)]
     if tier != "quick":
         s += [("close_at", k) for k in range(1, len(HEAD_CL + BODY), 4)]
         s += [("reset_at", k) for k in range(3, len(HEAD_CL + BODY), 7)]
@@ -860,6 +864,9 @@ def h2_stage(tier, work):
                 "goaway_mid": ("close_at", len(HEAD_CL + BODY))}
     flat, index = [], []
     for kind, k in scns:
+        if kind.startswith("drain_") or kind == "cancel_reuse":
+            index.append(None)
+            continue
         if kind.startswith("h2c_"):
             # the automaton's inputs for the same fault shape (lost before any response byte / lost or silent
             # after the head and part of the body / graceful GOAWAY with the body completed)
@@ -883,6 +890,26 @@ def h2_stage(tier, work):
             if not r or 1 not in r:
                 bad.append((i, "bb2-no-result", "h2 %s %d: no result from the driver" % (kind, k)))
                 continue
+            if kind.startswith("drain_"):
+                # every stream gets its own documented answer; the graceful drain started by the first
+                # proxy-generated answer must let the others finish
+                want3 = ["default 404", "default 503" if kind == "drain_c" else "default 502", "relay"]
+                got3 = [classify_h2(r.get(j, {})) for j in range(3)]
+                if got3 != want3 or r.get(2, {}).get("body") != 4:
+                    bad.append((i, "bb2-drain", "h2 %s: streams 1/3/5 observed %s body5=%s (expected %s, 4 bytes): a proxy-generated answer on one stream cut the others"
+                                % (kind, got3, r.get(2, {}).get("body"), want3)))
+                for j in range(3):
+                    if r.get(j, {}).get("code") in (9998, 9999):
+                        bad.append((i, "bb2-two-answers", "h2 %s: stream %d got frames after its end / a second final answer" % (kind, 1 + 2 * j)))
+                continue
+            if kind == "cancel_reuse":
+                d2 = r.get(2, {})
+                if r.get(1, {}).get("end") != "cancelled":
+                    bad.append((i, "bb2-no-result", "h2 cancel_reuse: the download was never cancelled (no DATA arrived)"))
+                elif classify_h2(d2) != "relay" or d2.get("body") != 6:
+                    bad.append((i, "bb2-cross-request", "h2 cancel_reuse: the stream that followed a cancelled download observed %s body=%s (expected 200 'second', 6 bytes): the backend connection still owing the rest of the cancelled response was reused"
+                                % (classify_h2(d2), d2.get("body"))))
+                continue
             # siblings on the same connection must complete untouched (isolation)
             for j, want_body in ((0, 4), (2, 6)):
                 d = r.get(j, {})
@@ -899,8 +926,8 @@ def h2_stage(tier, work):
                 want = sorted(set(want) | {"abort", "default 503"})
             if kind in ("h2c_rst_mid", "h2c_close_mid", "h2c_stall_mid") and d.get("body", 0) > 1000:
                 bad.append((i, "bb2-body", "h2 %s: %s body bytes reached the client, the backend sent 1000" % (kind, d.get("body"))))
-            if d.get("code") == 9999:
-                bad.append((i, "bb2-two-answers", "h2 %s %d: frames follow the end of the stream" % (kind, k)))
+            if d.get("code") in (9998, 9999):
+                bad.append((i, "bb2-two-answers", "h2 %s %d: frames follow the end of the stream / a second final answer on one stream" % (kind, k)))
             if got == "hang":
                 bad.append((i, "bb2-hang", "h2 %s %d: no answer, no RST_STREAM and no close within the deadline" % (kind, k)))
             elif got == "unanswered-close":
